@@ -1047,6 +1047,13 @@ func TestVerifSyncClient(t *testing.T) {
 			if err := json.Unmarshal(l, &s); err != nil {
 				t.Fatal(err)
 			}
+			lying := false
+			for _, p := range s.Peers {
+				lying = lying || p.First == "LyingInfo"
+			}
+			if lying {
+				continue // chain-info lies concern StartFollowChain only (internal/core harness)
+			}
 			scs = append(scs, s)
 		}
 	}
